@@ -13,6 +13,7 @@ def run(ctx):
     ctx.run(L.lck1_flush_critical_section, with_reset=False)
     ctx.run(O.opt1_shared_optional_payload)
     ctx.run(O.flw7_catalogue_lookups_on_query_path)
+    ctx.run(L.flw22_busy_flag_released)
     return ctx.finish(
         'Static lock analysis over compiler MIR (guard birth/transfer/death, must-hold sets per '
         'program point): the snapshot reads buffer, frozen buffer and partition map under all '
